@@ -323,6 +323,109 @@ func genJoin(r *kit.Rand, size int) []string {
 	return ops
 }
 
+// ---- batch join ----
+
+func genJoinBatch(r *kit.Rand) []string {
+	n := kit.Pick(r, []int{2, 2, 3})
+	tol := kit.Pick(r, []int64{0, 0, 10})
+	fill := kit.Pick(r, []string{"none", "none", "null", "i:0", "f:" + kit.F64(1.5)})
+	names := []string{"a", "b", "c"}[:n]
+	hosts := []string{"-"}
+	if r.Chance(1, 2) {
+		hosts = []string{"h=x", "h=y"}
+	}
+	sname := ""
+	if r.Chance(1, 4) {
+		sname = "joined"
+	}
+	step := int64(1)
+	if tol > 0 {
+		step = 10
+	}
+	type bat struct {
+		tmax int64
+		tags string
+		pts  string
+	}
+	seqs := make([][]bat, n)
+	id := 1
+	tmax := int64(1000)
+	lagging := -1
+	if r.Chance(1, 4) {
+		lagging = r.Intn(n)
+	}
+	for slot := 0; slot < 2+r.Intn(4); slot++ {
+		tmax += int64(kit.Pick(r, []int{0, 100, 100, 200})) * step / step
+		// the point timeline of this slot, shared by the parents
+		var tl []int64
+		pt := tmax - 60*step
+		for k := r.Intn(6); k > 0; k-- {
+			pt += int64(kit.Pick(r, []int{0, 1, 1, 2, 3})) * step
+			tl = append(tl, pt)
+		}
+		for _, h := range hosts {
+			for i := 0; i < n; i++ {
+				cnt := kit.Pick(r, []int{0, 1, 1, 1, 2})
+				if i == lagging && r.Chance(1, 2) {
+					cnt = 0
+				}
+				for c := 0; c < cnt; c++ {
+					var ps []string
+					for _, t := range tl {
+						if r.Chance(1, 4) {
+							continue
+						}
+						for d := kit.Pick(r, []int{1, 1, 1, 2}); d > 0; d-- {
+							tt := t
+							if tol > 1 && r.Chance(1, 2) {
+								tt += int64(r.Intn(int(tol))) - tol/2
+							}
+							f := fmt.Sprintf("v=i:%d", id)
+							if r.Chance(1, 5) {
+								f += fmt.Sprintf(",w=f:%s", kit.F64(float64(id)/2))
+							}
+							id++
+							ps = append(ps, fmt.Sprintf("%d^%s", tt, f))
+						}
+					}
+					// points in time order inside the batch
+					sort.SliceStable(ps, func(a, b int) bool {
+						return atoi(ps[a][:strings.IndexByte(ps[a], '^')]) < atoi(ps[b][:strings.IndexByte(ps[b], '^')])
+					})
+					p := "-"
+					if len(ps) > 0 {
+						p = strings.Join(ps, "!")
+					}
+					bt := tmax
+					if tol > 1 && r.Chance(1, 2) {
+						bt += int64(r.Intn(int(tol))) - tol/2
+					}
+					seqs[i] = append(seqs[i], bat{bt, h, p})
+				}
+			}
+		}
+	}
+	lens := make([]int, n)
+	for i := range seqs {
+		sort.SliceStable(seqs[i], func(a, b int) bool { return seqs[i][a].tmax < seqs[i][b].tmax })
+		lens[i] = len(seqs[i])
+	}
+	cfg := fmt.Sprintf("n=%d tol=%d names=%s fill=%s edge=batch", n, tol, strings.Join(names, ","), fill)
+	if sname != "" {
+		cfg += " sname=" + sname
+	}
+	var ops []string
+	for _, pat := range []int{r.Intn(5), 4} {
+		ops = append(ops, "join new "+cfg)
+		for _, a := range merge(r, lens, pat) {
+			b := seqs[a[0]][a[1]]
+			ops = append(ops, fmt.Sprintf("j bat %d %d name=m%d byname=0 tags=%s pts=%s", a[0], b.tmax, a[0], b.tags, b.pts))
+		}
+		ops = append(ops, "j fin")
+	}
+	return ops
+}
+
 func generate(out *kit.Out, r *kit.Rand, n int, tier string) {
 	if tier == "racechild" { // child process built with -race: real-task cases only
 		genTasks(out, r, n, tier)
@@ -341,6 +444,8 @@ func generate(out *kit.Out, r *kit.Rand, n int, tier string) {
 			emit(out, fmt.Sprintf("q%d", i), execCase(ops))
 		case 2, 3, 4:
 			emit(out, fmt.Sprintf("u%d", i), execCase(genUnion(g)))
+		case 5:
+			emit(out, fmt.Sprintf("b%d", i), execCase(genJoinBatch(g)))
 		default:
 			emit(out, fmt.Sprintf("j%d", i), execCase(genJoin(g, 3+g.Intn(6))))
 		}
